@@ -4,9 +4,34 @@ The library looks both functions up as attributes of the `time` module at call
 time (isotp/tools.py Timer, isotp/protocol.py RateLimiter), so replacing the
 module attributes is enough; no source hook is needed.
 perf_counter() returns an exact Fraction so that clock differences are exact.
+
+So that a harmless rewrite of the library cannot silently escape the virtual clock, this module (imported before the
+library everywhere in the harness) first puts trampolines into the `time` module: code that binds a clock function at import
+time (`from time import perf_counter_ns`) binds the trampoline, which calls whatever is installed in the `time` module at
+call time.  (A rewrite that moves to another clock source - time.monotonic_ns - is not followed: the standard library reads
+that one at call time as well, and freezing it would stall its timeouts.)
 """
 import time
 from fractions import Fraction
+
+_REAL_NS, _REAL_S = time.perf_counter_ns, time.perf_counter
+
+
+def _tramp_ns():
+    f = time.perf_counter_ns
+    return _REAL_NS() if f is _tramp_ns else f()
+
+
+def _tramp_s():
+    f = time.perf_counter
+    return _REAL_S() if f is _tramp_s else f()
+
+
+if getattr(time, '_verif_trampolines', None) is None:
+    time.perf_counter_ns, time.perf_counter = _tramp_ns, _tramp_s
+    time._verif_trampolines = (_tramp_ns, _tramp_s)
+else:       # module imported twice under two names: reuse the trampolines already in place
+    _tramp_ns, _tramp_s = time._verif_trampolines
 
 
 class VClock:
